@@ -182,17 +182,32 @@ impl<'a> Cur<'a> {
 
 /// Decodes a v3 byte string strictly by the documented layout.
 pub fn decode_v3(bytes: &[u8]) -> Result<FactSet, String> {
+    match decode(bytes)? {
+        (3, f) => Ok(f),
+        (v, _) => Err(format!("version {v}")),
+    }
+}
+
+/// Decodes a v1, v2 or v3 byte string strictly by the documented layouts; returns (version, facts).
+pub fn decode(bytes: &[u8]) -> Result<(u8, FactSet), String> {
     let mut c = Cur { b: bytes, p: 0 };
-    if c.take(3)? != b"HPO" {
-        return Err("magic".into());
+    let version: u8 = if bytes.len() >= 4 && &bytes[0..3] == b"HPO" {
+        c.p = 3;
+        let v = c.u8()?;
+        if v != 2 && v != 3 {
+            return Err(format!("unsupported version byte {v}"));
+        }
+        v
+    } else {
+        1
+    };
+    let mut f = FactSet::default();
+    if version >= 2 {
+        let y = u16::from_be_bytes([c.u8()?, c.u8()?]);
+        let m = c.u8()?;
+        let d = c.u8()?;
+        f.version = (y, m, d);
     }
-    if c.u8()? != 3 {
-        return Err("version byte".into());
-    }
-    let y = u16::from_be_bytes([c.u8()?, c.u8()?]);
-    let m = c.u8()?;
-    let d = c.u8()?;
-    let mut f = FactSet { version: (y, m, d), ..Default::default() };
     // terms
     let l = c.u32()? as usize;
     let end = c.p + l;
@@ -202,8 +217,7 @@ pub fn decode_v3(bytes: &[u8]) -> Result<FactSet, String> {
         let id = c.u32()?;
         let nl = c.u8()? as usize;
         let name = String::from_utf8(c.take(nl)?.to_vec()).map_err(|_| format!("term {id}: name is not UTF-8"))?;
-        let flags = c.u8()?;
-        let repl = c.u32()?;
+        let (flags, repl) = if version >= 2 { (c.u8()?, c.u32()?) } else { (0, 0) };
         if c.p - start != total {
             return Err(format!("term {id}: record length {} but {} consumed", total, c.p - start));
         }
@@ -224,7 +238,8 @@ pub fn decode_v3(bytes: &[u8]) -> Result<FactSet, String> {
     if c.p != end {
         return Err("parents section overrun".into());
     }
-    for kind in 0..3 {
+    let nkinds = if version >= 3 { 3 } else { 2 };
+    for kind in 0..nkinds {
         let l = c.u32()? as usize;
         let end = c.p + l;
         while c.p < end {
@@ -255,5 +270,6 @@ pub fn decode_v3(bytes: &[u8]) -> Result<FactSet, String> {
     if c.p != bytes.len() {
         return Err("trailing bytes".into());
     }
-    Ok(f)
+    f.normalise();
+    Ok((version, f))
 }
